@@ -37,6 +37,16 @@ let pairs_of s = List.map (fun e -> match String.split_on_char ':' e with
 let str_ns l = if l = [] then "-" else String.concat "," (List.map string_of_n l)
 let str_hs l = if l = [] then "-" else String.concat "," (List.map hex_of l)
 let str_pairs l = if l = [] then "-" else String.concat "," (List.map (fun (p, h) -> string_of_n p ^ ":" ^ hex_of h) l)
+(* the update data lists are sorted by position with Go's unstable sort: entries with EQUAL positions (they only
+   occur for garbage additions such as the all-zero hash) are compared in a canonical order on both sides *)
+let str_pairs_canon l =
+  let rec fix acc = function
+    | [] -> List.rev acc
+    | (p, h) :: rest ->
+      let same, other = List.partition (fun (q, _) -> q = p) rest in
+      let grp = List.sort (fun (_, a) (_, b) -> compare (hex_of a) (hex_of b)) ((p, h) :: same) in
+      fix (List.rev_append grp acc) other in
+  str_pairs (fix [] l)
 let str_ints l = if l = [] then "-" else String.concat "," (List.map string_of_int l)
 let b01 b = if b then "1" else "0"
 let bool_of s = s = "1"
@@ -304,7 +314,7 @@ let handle (toks : string list) =
     let (s', o) = mirror_update ops filler c (hashes_of dels) (hashes_of adds) (ns_of ts) (hashes_of pf) in
     let model = (match o with
         | Ok u -> Printf.sprintf "ok %s %s %s %s %s %s" (string_of_n s'.st_n) (str_hs s'.st_roots)
-                    (str_ns u.u_to_destroy) (string_of_n u.u_prev) (str_pairs u.u_del) (str_pairs u.u_add)
+                    (str_ns u.u_to_destroy) (string_of_n u.u_prev) (str_pairs_canon u.u_del) (str_pairs_canon u.u_add)
         | o -> Printf.sprintf "%s %s %s" (outcome_str o) (string_of_n s'.st_n) (str_hs s'.st_roots)) in
     let impl = String.concat " " (res :: more) in
     check "mirror" ("UPDATE." ^ label) (String.equal model impl)
